@@ -28,7 +28,10 @@ const c13Rule = "rapid state machine over ONE evaluator and ONE filter: actions 
 type c13Case struct {
 	EvalCase
 	Pool    []*uni.Node `json:"pool"`
-	History []string    `json:"history"` // "e<i>" evaluate pool[i], "xs"/"xa"/"xm" execute on slice/array/map, "s" Expression()
+	History []string    `json:"history"` // "e<i>" evaluate pool[i], "xs"/"xa"/"xm" execute on slice/array/map, "s" Expression(), "m<i>:<j>:<n>" caller replaces a key in place
+	// NoFresh: compare with the history-free reference only; evaluating a fresh evaluator on a copy between
+	// the calls would itself disturb (and thereby hide) state kept outside the evaluator
+	NoFresh bool `json:"no_fresh,omitempty"`
 }
 
 func sameResult(a bool, ae error, b bool, be error) bool {
@@ -144,7 +147,10 @@ func c13Run(t failer, c *c13Case) (errThenOk bool, matchesTwice bool) {
 			if ferr != nil {
 				t.Fatalf("harness: %v", ferr)
 			}
-			fres, fe, _ := safeEvaluate(fresh, c.Pool[i].Interface())
+			fres, fe := res, rerr
+			if !c.NoFresh {
+				fres, fe, _ = safeEvaluate(fresh, c.Pool[i].Interface())
+			}
 			if !sameResult(res, rerr, fres, fe) {
 				violation(t, "C13", "TestC13_History", c, "step %d (after history %v): used evaluator returned (%v, %v) on pool[%d], a fresh evaluator returns (%v, %v)\n expr: %s\n datum: %s",
 					step, c.History[:step], res, rerr, i, fres, fe, c.TextQ, c.Pool[i])
@@ -274,11 +280,49 @@ func TestC13_History(t *testing.T) {
 				e = &bx.Or{L: m, R: e}
 			}
 		}
+		inPlace := ty.K == uni.KMap && ty.Elem.K == uni.KIface && rapid.IntRange(0, 3).Draw(t, "inPlaceFocus") == 0
+		if inPlace {
+			// every pool member gets, as its FIRST entry, a nested map that a quantifier ranges over and that
+			// the caller keeps updating in place (keys replaced, size unchanged) between calls
+			strT := uni.Scalar(uni.KString)
+			for i := range pool {
+				nm := &uni.Node{T: uni.MapOf(strT, uni.Iface())}
+				for j := rapid.IntRange(1, 4).Draw(t, "nmEntries"); j > 0; j-- {
+					nm.Keys = append(nm.Keys, uni.Str("t"+strconv.Itoa(j)))
+					nm.Elems = append(nm.Elems, uni.InIface(uni.Str([]string{"a", "b", "db"}[rapid.IntRange(0, 2).Draw(t, "nmVal")])))
+				}
+				cp := pool[i].Clone()
+				cp.Nil = false
+				cp.Keys = append([]*uni.Node{uni.Str("nm")}, cp.Keys...)
+				cp.Elems = append([]*uni.Node{uni.InIface(nm)}, cp.Elems...)
+				pool[i] = cp
+			}
+			g = gen.NewExprGen(t, pool[0], "")
+			q := g.QuantOver([]string{"nm"}, pool[0].Elems[0], 1)
+			keyLit := "t" + strconv.Itoa(rapid.IntRange(1, 4).Draw(t, "keyLit")) + []string{"", "_r"}[rapid.IntRange(0, 1).Draw(t, "renamed")]
+			name := q.Value
+			if q.Mode == bx.BindIndex || q.Mode == bx.BindBoth {
+				name = q.Index
+			}
+			if q.Mode == bx.BindValue {
+				q.Body = &bx.Match{Sel: bx.Sel{Parts: []string{name}}, Op: bx.OpEq, Lit: "db"}
+			} else {
+				q.Body = &bx.Match{Sel: bx.Sel{Parts: []string{name}}, Op: []bx.Op{bx.OpEq, bx.OpNe}[rapid.IntRange(0, 1).Draw(t, "keyOp")], Lit: keyLit}
+			}
+			e = q
+		}
 		rend := bx.NewRenderer(chooser(t))
 		rend.MaxParen = 1
 		text, _ := rend.Render(e)
 		c := &c13Case{EvalCase: *newEvalCase(text, e, pool[0], o), Pool: pool}
 		steps := rapid.IntRange(2, 30).Draw(t, "steps")
+		if inPlace {
+			c.NoFresh = rapid.Bool().Draw(t, "noFresh")
+			for i := rapid.IntRange(1, 3).Draw(t, "rounds"); i > 0; i-- {
+				d := rapid.IntRange(0, n-1).Draw(t, "ipDatum")
+				c.History = append(c.History, "e"+strconv.Itoa(d), fmt.Sprintf("m%d:%d:1", d, rapid.IntRange(0, 5).Draw(t, "ipKey")), "e"+strconv.Itoa(d))
+			}
+		}
 		for i := 0; i < steps; i++ {
 			k := rapid.IntRange(0, 9).Draw(t, "action")
 			if k == 5 && ty.K == uni.KMap {
